@@ -257,7 +257,7 @@ fn judge(vo: &RootedThread, vu: &RootedThread, prog: &Program, style: Style, nam
     // fail at all; 2. of those, the ones whose value never matters (0 and 1 in its place give the
     // same behaviour, operands still evaluated); 3. skipping some subset of them must reproduce
     // the optimised behaviour exactly.
-    let body = prog.body.clone().unwrap();
+    let mut body = prog.body.clone().unwrap();
     let mut tried = 0usize;
     let mut run_with = |b: &Expr, tag: &str| {
         let mut p2 = prog.clone();
@@ -265,11 +265,20 @@ fn judge(vo: &RootedThread, vu: &RootedThread, prog: &Program, style: Style, nam
         tried += 1;
         run_both(vu, &format!("{}_{}{}", name, tag, tried), &print_program(&p2, style))
     };
-    let mut nodes = Vec::new();
-    arith_nodes(&body, &mut 0, &mut nodes);
-    let nodes: Vec<usize> = nodes.into_iter().filter(|n| may_fail_node(&body, *n)).collect();
-    let mut dead = Vec::new();
-    if nodes.len() <= 30 {
+    let mut search_complete = true;
+    // rounds: removing a dead operation can make the operations that fed it dead in turn
+    for _round in 0..4 {
+        let mut nodes = Vec::new();
+        arith_nodes(&body, &mut 0, &mut nodes);
+        let nodes: Vec<usize> = nodes.into_iter().filter(|n| may_fail_node(&body, *n)).collect();
+        if nodes.is_empty() {
+            break;
+        }
+        if nodes.len() > 30 {
+            search_complete = false;
+            break;
+        }
+        let mut dead = Vec::new();
         for n in nodes {
             let r0 = run_with(&replace_nodes(&body, &[n], &mut 0, 0), "z");
             if matches!(&r0.0, Outcome::Error(c, _) if c == "host-panic") {
@@ -280,11 +289,19 @@ fn judge(vo: &RootedThread, vu: &RootedThread, prog: &Program, style: Style, nam
                 dead.push(n);
             }
         }
-    }
-    if !dead.is_empty() && dead.len() <= 16 {
+        if dead.is_empty() {
+            break;
+        }
+        if dead.len() > 16 {
+            search_complete = false;
+            break;
+        }
         // larger subsets first: the optimiser usually skips all of them
         let mut masks: Vec<u32> = (1u32..(1u32 << dead.len())).collect();
         masks.sort_by_key(|m| std::cmp::Reverse(m.count_ones()));
+        if masks.len() > 400 {
+            search_complete = false;
+        }
         for mask in masks.into_iter().take(400) {
             let subset: Vec<usize> = dead.iter().enumerate().filter(|(i, _)| mask & (1 << i) != 0).map(|(_, n)| *n).collect();
             let r = run_with(&replace_nodes(&body, &subset, &mut 0, 0), "s");
@@ -292,6 +309,11 @@ fn judge(vo: &RootedThread, vu: &RootedThread, prog: &Program, style: Style, nam
                 return Judged::Permitted;
             }
         }
+        // next round on the program with every dead operation of this round skipped
+        body = replace_nodes(&body, &dead, &mut 0, 0);
+    }
+    if !search_complete {
+        return Judged::Skip("permitted-difference-search-incomplete".into(), "too many candidate operations".into());
     }
     Judged::Differs { unopt: u, opt: o, tried }
 }
@@ -348,6 +370,10 @@ impl Worker for W {
                 }
                 if c == "host-panic" {
                     self.vms = None;
+                }
+                if c == "permitted-difference-search-incomplete" {
+                    r.verdict = Verdict::Inconclusive;
+                    r.msg = "the two modes differ and the search for a permitted explanation hit its caps".into();
                 }
                 return r;
             }
